@@ -13,8 +13,8 @@ import (
 
 // tolerance bands (DESIGN.md section 2)
 const (
-	lonBandDeg   = 0x1p-42  // degrees: lon+180 is rounded to the float grid of [128,512)
-	latBandFrac  = 0x1p-45  // Mercator fraction
+	lonBandDeg   = 0x1p-42   // degrees: lon+180 is rounded to the float grid of [128,512)
+	latBandFrac  = 0x1p-45   // Mercator fraction
 	altBandM     = 0x1p-1000 // metres: alt / 2^(25-v) underflows for sub-normal altitudes only
 	latTruncBand = 1e-10 + 2e-13
 )
